@@ -87,6 +87,9 @@ pub struct PciWorld {
     /// windows the driver requested through mmio_phys_to_virt: (paddr, size, virtual base)
     pub maps: Vec<(u64, usize, usize)>,
     pub virtio_df: Option<(u8, u8, u8)>,
+    /// advertise the device-configuration capability with exactly the configuration length
+    /// (not rounded up to whole words)
+    pub exact_cfg_len: bool,
 }
 
 impl PciFunc {
@@ -637,9 +640,10 @@ pub fn install_standard_function(w: &mut World, device_type: u32, config_len: us
     let common = Win { bar: slot as u8, off: 0x0, len: 0x38 };
     let notify = Win { bar: slot as u8, off: 0x3000, len: 0x1000 };
     let isr = Win { bar: slot as u8, off: 0x1000, len: 4 };
-    let clen4 = ((config_len + 3) & !3) as u64;
-    let devcfg = if w.tr.has_config { Some(Win { bar: slot as u8, off: 0x2000, len: clen4.max(4) }) } else { None };
-    if w.tr.has_config && (w.tr.config.len() as u64) < clen4.max(4) {
+    let exact = w.bus.pci.as_ref().is_some_and(|p| p.exact_cfg_len);
+    let clen4 = if exact { config_len as u64 } else { ((config_len + 3) & !3) as u64 };
+    let devcfg = if w.tr.has_config { Some(Win { bar: slot as u8, off: 0x2000, len: if exact { clen4 } else { clen4.max(4) } }) } else { None };
+    if !exact && w.tr.has_config && (w.tr.config.len() as u64) < clen4.max(4) {
         // the capability window is a whole number of 32-bit words; the device pads with zeros
         w.tr.config.resize(clen4.max(4) as usize, 0);
     }
